@@ -89,6 +89,15 @@ Definition vmaps_r (f : N -> N -> N) (x : list N) (c : N) : list N := map (fun a
 Definition vmaps_l (f : N -> N -> N) (c : N) (x : list N) : list N := map (fun a => f c a) x.   (* scalar op array *)
 Definition vmap1 (f : N -> N) (x : list N) : list N := map f x.
 Definition vcount (p : N -> bool) (x : list N) : Z := Z.of_nat (length (filter p x)).          (* np.sum(x != 0) *)
+(* x.max() / x.min(): running maximum from the first element (numpy raises on an empty array: 0 here, outside the meaning) *)
+Definition vmax_py (x : list N) : N := match x with [] => zero N | a :: l => fold_left nmax l a end.
+Definition vmin_py (x : list N) : N := match x with [] => zero N | a :: l => fold_left nmin l a end.
+(* X[mask] = E (E elementwise): positions where the mask holds take E's element, the others keep X's *)
+Fixpoint vselect (m : list bool) (e x : list N) : list N :=
+  match m, e, x with
+  | b :: m', a :: e', c :: x' => (if b then a else c) :: vselect m' e' x'
+  | _, _, _ => x
+  end.
 Definition vmean_py (x : list N) : N := div N (vsum_py x) (of_Z N (zlen x)).                    (* np.mean *)
 End Prim.
 
